@@ -48,7 +48,7 @@ def _fn(fd):
     return Fn(fd["name"], [inner.get(p, p) for p in fd["params"]], defaults=fd.get("sig_defaults") or None,
               n_out=len(fd["outputs"]), out_shape=fd.get("out_shape"),
               none_mod=0 if fd.get("out_shape") else fd.get("none_mod", 0),
-              seq_out=bool(fd.get("seq_out")) and not fd.get("out_shape"),
+              seq_out=fd.get("seq_out") if not fd.get("out_shape") else False,
               outer={v: k for k, v in inner.items()}, dict_out=fd["outputs"] if fd.get("dict_out") else None,
               result_like=bool(fd.get("result_like")) and not fd.get("out_shape") and not fd.get("none_mod"),
               data_like=fd.get("data_like") if not fd.get("out_shape") and not fd.get("none_mod") else False)
